@@ -40,11 +40,23 @@ def _no_rawtext(nodes):
     return out
 
 
+def _maybe_wrap(roots, wrap):
+    """optionally the whole forest becomes the content of one document-level element given by the user"""
+    if wrap is None:
+        return roots
+    return [{"k": "tag", "name": wrap[0], "ws": wrap[1], "attrs": [], "kids": roots}]
+
+
 def case_strategy(eols, blank, newlines=False):
     def f():
         return st.fixed_dictionaries(
             {
-                "roots": gen.layout_forest(newlines=newlines, meta=1, spaces=newlines, blank=blank).map(_no_rawtext).map(gen.number),
+                "roots": st.builds(
+                    _maybe_wrap,
+                    gen.layout_forest(newlines=newlines, meta=1, spaces=newlines, blank=blank).map(_no_rawtext),
+                    st.sampled_from([None, None, None, None, None, ("body", False), ("body", True), ("head", False), ("main", False)]),
+                ).map(gen.number),
+                "doc": st.booleans(),
                 "indent": st.integers(0, 6),
                 "eol": st.sampled_from(eols),
                 "share": st.one_of(st.just(0), st.just(0), st.integers(1, 10**6)),
@@ -177,9 +189,16 @@ def body_contain(case, note):
             saved = True
         finally:
             shutil.rmtree(d, ignore_errors=True)
+    # a complete document is an output too ("wherever the subtree is placed"); a user-supplied <html> root is modified
+    # by document assembly (C11), every other content must appear in the document with its inline runs intact
+    in_doc = False
+    if case.get("doc") and not any(r["k"] == "tag" and r["name"] == "html" for r in roots):
+        check_containment(h.HTMLDocument(*[build(r, {}) for r in roots]).render()["html"], roots, "HTMLDocument.render")
+        in_doc = True
     any_block = any(L.contains_block(r) for r in roots)
     bii = any(has_block_in_inline(r) for r in roots)
-    note(any_block and any(len(r) >= 2 for r in rs), "saved-file" if saved else "", "block-inside-inline" if bii else "", "run>=3" if any(len(r) >= 3 for r in rs) else "", "blank-leaf" if any(_has_blank(r) for r in roots) else "", "same-object-twice" if shared and memo else "")
+    sole_inline_body = len(roots) == 1 and roots[0]["k"] == "tag" and roots[0]["name"] == "body" and not roots[0]["ws"]
+    note(any_block and any(len(r) >= 2 for r in rs), "saved-file" if saved else "", "in-document" if in_doc else "", "in-document:sole-inline-body" if in_doc and sole_inline_body else "", "block-inside-inline" if bii else "", "run>=3" if any(len(r) >= 3 for r in rs) else "", "blank-leaf" if any(_has_blank(r) for r in roots) else "", "same-object-twice" if shared and memo else "")
 
 
 # ---------------------------------------------------------------- token rule
@@ -320,7 +339,7 @@ RULE = (
 )
 
 CLAUSES = [
-    Clause("contain", body_contain, strategy=case_strategy(EOLS_ANY, ("", " ", "\t", "\xa0", "  "), newlines=True), quick=800, thorough=12000, shards_quick=3, required=("block-inside-inline", "blank-leaf", "same-object-twice", "saved-file"), rule="see RULE"),
+    Clause("contain", body_contain, strategy=case_strategy(EOLS_ANY, ("", " ", "\t", "\xa0", "  ", "\n", "\n ", "\r\n"), newlines=True), quick=800, thorough=12000, shards_quick=3, required=("block-inside-inline", "blank-leaf", "same-object-twice", "saved-file", "in-document", "in-document:sole-inline-body"), rule="see RULE"),
     Clause("tokens", body_tokens, strategy=case_strategy(EOLS_WS, ("",)), quick=800, thorough=12000, shards_quick=3, required=("block-inside-inline", "eol-empty", "blank-leaf"), rule="see RULE"),
     Clause("triples", body_triples, source="enum", enum=enum_triples, shards_quick=4, shards_thorough=8, rule="every case"),
 ]
